@@ -1,6 +1,7 @@
 package props
 
 import (
+	"context"
 	"fmt"
 
 	tls "github.com/refraction-networking/utls"
@@ -310,6 +311,112 @@ func c12Scenario(clients []gridClient) *explore.Scenario {
 	}
 }
 
+// c12QUIC — the session-id echo rule over QUIC: a uTLS QUIC client sends an empty legacy session
+// id; a ServerHello carrying a non-empty one (which the server keeps in its own transcript, so it
+// stays self-consistent) selects a value the client did not offer and must be refused.
+func c12QUIC() *explore.Scenario {
+	specs := c23Specs()
+	return &explore.Scenario{
+		Name:    "quic-unoffered-session-id",
+		Workers: 1,
+		Run: func(x *explore.X) (r explore.Result) {
+			sp := specs[x.Choose("spec", len(specs))]
+			sidLen := []int{0, 1, 32}[x.Choose("session-id", 3)] // 0 = honest control
+			what := fmt.Sprintf("quic spec=%s server session id echo of %d bytes", sp.name, sidLen)
+			hookFallbackMu.Lock()
+			defer hookFallbackMu.Unlock()
+			hk := &connHooks{}
+			hk.Out = func(n int, t uint8, d []byte) []byte {
+				if t != 2 || len(d) < 39 || sidLen == 0 || d[38] != 0 {
+					return d
+				}
+				body := append(append([]byte(nil), d[4:38]...), byte(sidLen))
+				body = append(body, rep(0x5d, sidLen)...)
+				body = append(body, d[39:]...)
+				return hsMsg(2, body)
+			}
+			hookFallback = hk
+			defer func() { hookFallback = nil }()
+
+			ccfg := peer.ClientConfig("example.com")
+			ccfg.MinVersion = tls.VersionTLS13
+			ccfg.NextProtos = []string{"h3"}
+			scfg := peer.ServerConfig()
+			scfg.MinVersion = tls.VersionTLS13
+			scfg.NextProtos = []string{"h3"}
+			srv := tls.QUICServer(&tls.QUICConfig{TLSConfig: scfg})
+			srv.SetTransportParameters([]byte{0x04, 0x04, 0x80, 0x10, 0x00, 0x00})
+			defer srv.Close()
+			q := tls.UQUICClient(&tls.QUICConfig{TLSConfig: ccfg}, tls.HelloCustom)
+			defer q.Close()
+			var cerr, serr error
+			done := false
+			if pm := catch(func() {
+				if cerr = q.ApplyPreset(sp.mk()); cerr != nil {
+					return
+				}
+				if serr = srv.Start(context.Background()); serr != nil {
+					return
+				}
+				if cerr = q.Start(context.Background()); cerr != nil {
+					return
+				}
+				for round := 0; round < 8 && cerr == nil && serr == nil; round++ {
+					progress := false
+					for {
+						e := q.NextEvent()
+						if e.Kind == tls.QUICNoEvent {
+							break
+						}
+						switch e.Kind {
+						case tls.QUICWriteData:
+							progress = true
+							if serr = srv.HandleData(e.Level, append([]byte(nil), e.Data...)); serr != nil {
+								break
+							}
+						case tls.QUICHandshakeDone:
+							done = true
+						case tls.QUICTransportParametersRequired:
+							q.SetTransportParameters([]byte{})
+						}
+					}
+					for serr == nil {
+						e := srv.NextEvent()
+						if e.Kind == tls.QUICNoEvent {
+							break
+						}
+						if e.Kind == tls.QUICWriteData {
+							progress = true
+							if cerr = q.HandleData(e.Level, append([]byte(nil), e.Data...)); cerr != nil {
+								break
+							}
+						}
+					}
+					if !progress {
+						break
+					}
+				}
+			}); pm != "" {
+				r.Violate("C12|quic|panic", "%s: %s", what, truncStr(pm, 300))
+				return
+			}
+			r.Nontrivial = true
+			r.Count("kind_quic-session-id", 1)
+			complete := done || q.ConnectionState().HandshakeComplete
+			if sidLen == 0 {
+				if !complete {
+					r.Violate("INFRA|c12-quic-control", "%s: the unmodified QUIC handshake does not complete: client %v server %v", what, cerr, serr)
+				}
+			} else if complete || cerr == nil {
+				r.Violate(fmt.Sprintf("C12|quic|unoffered-session-id-accepted|len=%d", sidLen), "%s: the client offered an empty legacy_session_id, the ServerHello carried %d bytes, and the client went on (complete=%v, error=%v)", what, sidLen, complete, cerr)
+			}
+			r.Obs = fmt.Sprintf("sid=%d|complete=%v|cerr=%s", sidLen, complete, errClass(cerr))
+			r.Class = what + "|" + r.Obs
+			return
+		},
+	}
+}
+
 func c12Scenarios(thorough bool) []*explore.Scenario {
 	n := 1
 	if thorough {
@@ -317,13 +424,13 @@ func c12Scenarios(thorough bool) []*explore.Scenario {
 	}
 	// certificate-compression algorithms: the unadvertised-algorithm and extension-removed-after-build
 	// rows of C21's scenario (a CompressedCertificate the on-wire hello did not invite)
-	return []*explore.Scenario{c12Scenario(c12Clients(n)), c21Lengths()}
+	return []*explore.Scenario{c12Scenario(c12Clients(n)), c21Lengths(), c12QUIC()}
 }
 
 func init() {
 	register(&Prop{ID: "C12", Level: "exploration", Variant: "A", Scenarios: c12Scenarios,
 		Run: func(c *explore.Check, thorough bool) {
-			c.Rule = "every discovered ID, randomized seeds, custom specs incl. single-suite specs x unoffered-choice kind {TLS 1.3 suite (forced through the suite hook, self-consistent), TLS 1.2 suite (forced, self-consistent), GREASE / TLS 1.3 suite id in a TLS 1.2 ServerHello, ServerHello key_share group without a sent share, ALPN not offered (1.3 EncryptedExtensions / 1.2 ServerHello), compression method 1, selected PSK identity without a PSK offer, legacy session id altered / emptied} x every value of the kind's complement menu: Handshake must fail, HandshakeComplete must stay false, no application data, and ConnectionState must not report the value. Certificate-compression: a CompressedCertificate in an algorithm the hello did not list, or after the extension was removed and the hello rebuilt, must be refused (scenario shared with C21). distinct = (client, kind, value)"
+			c.Rule = "every discovered ID, randomized seeds, custom specs incl. single-suite specs x unoffered-choice kind {TLS 1.3 suite (forced through the suite hook, self-consistent), TLS 1.2 suite (forced, self-consistent), GREASE / TLS 1.3 suite id in a TLS 1.2 ServerHello, ServerHello key_share group without a sent share, ALPN not offered (1.3 EncryptedExtensions / 1.2 ServerHello), compression method 1, selected PSK identity without a PSK offer, legacy session id altered / emptied; over QUIC (UQUICClient vs the package's QUICServer): a non-empty session id echoed to a client that sent none} x every value of the kind's complement menu: Handshake must fail, HandshakeComplete must stay false, no application data, and ConnectionState must not report the value. Certificate-compression: a CompressedCertificate in an algorithm the hello did not list, or after the extension was removed and the hello rebuilt, must be refused (scenario shared with C21). distinct = (client, kind, value)"
 			c.Assumptions = []string{"forced suites/ALPN keep the hooked server self-consistent (a client lacking the check would complete); ServerHello byte edits (group, compression, session id, PSK) make the server's own transcript diverge, so those rows rely on the client rejecting before Finished"}
 			runAll(c, c12Scenarios(thorough), 0)
 			for _, k := range c12Kinds() {
